@@ -15,6 +15,9 @@
      square_sum.map(|s| s / n)
    next = next_squared(..).map(sample_sqrt)     [rms_next]
    current = calc_rms_squared().map(sqrt)       [rms_current]
+   window_frames / into_parts / derive(Clone)   [window_frames] [into_parts] [rms_clone]
+   signal adaptor: next, next_squared,          [adaptor_next] [adaptor_next_squared]
+     into_parts, derive(Clone)                  [adaptor_into_parts] [adaptor_clone]
    Frames are lists; map/zip_map go channel 0,1,.. (from_fn). *)
 Require Import List Arith Bool.
 From Dasp Require Import Base.Res Base.ListX Ring.Bounded Ring.Fixed.
@@ -84,6 +87,10 @@ Definition rms_current (st : rms) : frame := map (sqrt K) (calc_rms_squared st).
 
 Definition into_parts (st : rms) : fixed frame * frame := (window st, square_sum st).
 
+(* #[derive(Clone)]: field-wise copy (the ring buffer owns its storage in every instantiation used) *)
+Definition rms_clone (st : rms) : rms :=
+  {| nch := nch st; window := window st; square_sum := square_sum st |}.
+
 (* ---- histories ---- *)
 Inductive op := ONext (fr : frame) | ONextSq (fr : frame) | OCurrent | OReset.
 
@@ -121,6 +128,14 @@ Definition adaptor_next_squared (a : adaptor) : res (adaptor * frame) :=
   let fr := src a (pulls a) in
   let* r := next_squared (det a) fr in
   Ok ({| src := src a; pulls := S (pulls a); det := fst r |}, snd r).
+
+(* dasp_signal/src/rms.rs: `pub fn into_parts(self) -> (S, rms::Rms<S::Frame, D>)`: the source
+   (a function of the pull counter here, so source + position) and the detector *)
+Definition adaptor_into_parts (a : adaptor) : (nat -> frame) * nat * rms := (src a, pulls a, det a).
+
+(* #[derive(Clone)] on the adaptor: source and detector cloned field by field *)
+Definition adaptor_clone (a : adaptor) : adaptor :=
+  {| src := src a; pulls := pulls a; det := rms_clone (det a) |}.
 
 Fixpoint adaptor_run (a : adaptor) (k : nat) : res (adaptor * list frame) :=
   match k with
